@@ -284,7 +284,7 @@ def oracle(seed, tier):
                 if not close6(v["data"]["Depth"][i], 6371000 - rr, 6371000) and abs(v["data"]["Depth"][i] - (6371000 - rr)) > 100:
                     viol.append({"what": "sphere grid: Depth is not outer radius - r at node %d" % i, "grid": ["sphere", 3, o]}); break
         shutil.rmtree(rd + "_sphere", ignore_errors=True)
-    return {"violations": viol[:20], "summary": {"cases": n, "violations": len(viol), "nontrivial": nontriv, "grids_with_exact_node_positions": nexact, "grids": len(cs)}, "samples": samples}
+    return {"violations": trim_violations(viol, 20), "summary": {"cases": n, "violations": len(viol), "nontrivial": nontriv, "grids_with_exact_node_positions": nexact, "grids": len(cs)}, "samples": samples}
 
 
 def replay(rp):
